@@ -43,10 +43,13 @@ func oracleC11(v *View, vd *Verdict) {
 		// in this wake-up or a later one
 		sentMid := map[uint16]string{} // message id of a PUBLISH the gateway sent -> payload
 		acked := map[string]bool{}
+		ackedT := map[string]int64{}
 		for _, e := range sv.Evs {
 			if e.Kind == EvG2C && e.SNErr == nil && e.SN.Type == refsn.PUBLISH && e.SN.QoS > 0 && !died {
 				k := string(e.SN.Data)
-				if acked[k] {
+				// (the retry timer may fire while the acknowledgement, already read, waits to be handled:
+				// a slow gateway — only a copy sent later than that is one too many)
+				if acked[k] && e.T-ackedT[k] > slack(v) {
 					vd.Add("C11", fmt.Sprintf("C11/sent-again-after-acknowledgement/qos%d", e.SN.QoS), "session %s t=%d: %s sent again although the client had acknowledged it", sv.Name, e.T, e.SN.String())
 					acked[k] = false // once per message
 				}
@@ -54,6 +57,9 @@ func oracleC11(v *View, vd *Verdict) {
 			}
 			if e.Kind == EvC2G && e.SNErr == nil && (e.SN.Type == refsn.PUBACK || e.SN.Type == refsn.PUBREC) {
 				if k, ok := sentMid[e.SN.MsgID]; ok {
+					if !acked[k] {
+						ackedT[k] = e.T
+					}
 					acked[k] = true
 				}
 			}
